@@ -1,6 +1,7 @@
 (* C04 — handshake: connected only after cookie proof; flags are the intersection.
-   Partial: the step order of Connection::connect, the socket and the timeouts are not in this model (C06/C07 harness). *)
-From EDP Require Import Base.Bytes Term.Term Dist.Handshake Dist.HandshakeFacts.
+   Connection::connect over the socket is Dist/Connect.v (the API steps in the order the code takes them, each read
+   one handshake-mode frame of a transport delivering arbitrary chunks); timeouts are the end of the chunk stream. *)
+From EDP Require Import Base.Bytes Term.Term Dist.Framing Dist.Handshake Dist.HandshakeFacts Dist.Connect Dist.ConnectFacts.
 
 (* For EVERY sequence of API calls, in any order, with any arguments, for any hash function:
    the state is Connected only if the spec automaton `gstep` is in `proven`, i.e. only if — after the last successful
@@ -78,5 +79,57 @@ Example C04_example :
                                 HandleChallenge chal 7; PrepareChallengeReply; HandleChallengeAck (97 :: [115; 55] ++ repeat 0 14)])) <> Connected
   /\ nego (fst (hrun md5 c hs_init [HandleChallenge chal 7])) = Some 5.
 Proof. split; vm_compute; [discriminate|reflexivity]. Qed.
+
+(* ---- over the socket ----
+   whatever byte stream the peer produces and however the transport cuts it: connect succeeds exactly when the three
+   frames it reads are an accepting status, a well-formed challenge and the digest of (cookie, the challenge issued in
+   this very handshake) *)
+Theorem C04_socket_connected_iff : forall md5 c gen cs,
+  c_err (connect md5 c gen cs) = None <->
+  exists d1 cs1 a1 d2 cs2 a2 d3 cs3 a3 fl ch nm,
+    send_name_old c = Some nm /\
+    read_framed Handshake cs = (ROk d1, cs1, a1) /\ status_ok d1 = Some true /\
+    read_framed Handshake cs1 = (ROk d2, cs2, a2) /\ challenge_decode d2 = Some (fl, ch) /\
+    read_framed Handshake cs2 = (ROk d3, cs3, a3) /\ ack_decode d3 = Some (digest md5 gen (h_cookie c)).
+Proof. exact connect_connected_iff. Qed.
+
+(* then the state is Connected, the negotiated set is the intersection, and what went on the wire is the name message,
+   the complement and 'r' ++ our challenge ++ MD5(cookie ++ the peer's challenge) *)
+Theorem C04_socket_success : forall md5 c gen cs, c_err (connect md5 c gen cs) = None ->
+  st (c_hs (connect md5 c gen cs)) = Connected /\
+  exists nm d1 cs1 a1 d2 cs2 a2 fl ch,
+    send_name_old c = Some nm /\ read_framed Handshake cs = (ROk d1, cs1, a1) /\
+    read_framed Handshake cs1 = (ROk d2, cs2, a2) /\ challenge_decode d2 = Some (fl, ch) /\
+    nego (c_hs (connect md5 c gen cs)) = Some (N.land fl (h_flags c)) /\
+    c_wrote (connect md5 c gen cs) = nm ++ complement c ++ challenge_reply md5 gen ch (h_cookie c).
+Proof. exact connect_success. Qed.
+
+(* every other peer behaviour — refusal, wrong digest, malformed, truncated, out of order, silence, close — is an
+   error that leaves the state machine short of Connected, and nothing beyond the client's three messages is written *)
+Theorem C04_socket_failure_not_connected : forall md5 c gen cs e,
+  c_err (connect md5 c gen cs) = Some e -> st (c_hs (connect md5 c gen cs)) <> Connected.
+Proof. exact connect_failure. Qed.
+
+Theorem C04_socket_wrote_prefix : forall md5 c gen cs, exists k, c_wrote (connect md5 c gen cs) =
+  firstn k (match send_name_old c with Some nm => nm | None => [] end ++ complement c ++
+            match read_framed Handshake cs with
+            | (ROk d1, cs1, _) => match read_framed Handshake cs1 with
+                                  | (ROk d2, _, _) => match challenge_decode d2 with Some (_, ch) => challenge_reply md5 gen ch (h_cookie c) | None => [] end
+                                  | _ => [] end
+            | _ => [] end).
+Proof. exact connect_wrote_prefix. Qed.
+
+(* a conforming peer whose bytes arrive cut in the middle of every message connects; the same stream with one bit of
+   the digest flipped, or stopping after the length prefix of the ack, does not *)
+Example C04_socket_example :
+  let c := {| h_name := [97; 64; 98]; h_cookie := [115]; h_flags := 13; h_creation := 1 |} in
+  let md5 := fun b => firstn 16 (b ++ repeat 0 16) in     (* any function *)
+  let chal := [78; 0;0;0;0;0;0;0;5; 0;0;0;9; 0;0;0;1; 0;1; 112] in
+  let ack := 97 :: md5 ([115] ++ decimal 7) in
+  let stream := [0; 3; 115; 111; 107] ++ [0; 20] ++ chal ++ [0; 17] ++ ack in
+  c_err (connect md5 c 7 [Data (firstn 4 stream); Pending; Data (skipn 4 stream)]) = None /\
+  c_err (connect md5 c 7 [Data (firstn 30 stream ++ [98] ++ skipn 31 stream)]) = Some (CHs EAuthFailed) /\
+  c_err (connect md5 c 7 [Data (firstn 29 stream)]) = Some CEof.
+Proof. vm_compute. repeat split. Qed.
 
 Check C04_connected_only_after_proof.
